@@ -50,6 +50,7 @@ type RunConfig struct {
 	Genesis  GenesisSpec `json:"genesis"`
 	Profile  string      `json:"profile"`
 	InitialHeight int64  `json:"initial_height,omitempty"` // height of the first block (default 1)
+	LegacyVersionMap bool `json:"legacy_version_map,omitempty"` // the module version map also lists modules that earlier releases removed
 	// per-run knobs (swarm)
 	QueryEvery   int     `json:"query_every"`    // full query sweep every n blocks (0 = only at end)
 	MidBlockRate float64 `json:"mid_block_rate"` // probability of a query/checktx task at each ABCI boundary on replicas
